@@ -470,8 +470,17 @@ enum WMsg {
 /// Runs cases sent to it, reporting every call result as soon as it is there.
 fn worker(dp: DomainParticipant, jobs: mpsc::Receiver<(usize, Case)>, res: mpsc::Sender<WMsg>) {
   while let Ok((idx, c)) = jobs.recv() {
-    let uniq = format!("{}_{}", idx, Timestamp::now().to_ticks());
-    let rig = catch_unwind(AssertUnwindSafe(|| Rig::new(&dp, &c, &uniq)));
+    // entity creation talks to the participant's event loop over bounded channels; under load it
+    // can fail transiently: retry before giving up
+    let mut rig = Err(Box::new(()) as Box<dyn std::any::Any + Send>);
+    for attempt in 0..6u64 {
+      let uniq = format!("{}_{}_{}", idx, attempt, Timestamp::now().to_ticks());
+      rig = catch_unwind(AssertUnwindSafe(|| Rig::new(&dp, &c, &uniq)));
+      if rig.is_ok() {
+        break;
+      }
+      thread::sleep(StdDuration::from_millis(50 * (attempt + 1)));
+    }
     let mut rig = match rig {
       Ok(r) => r,
       Err(_) => {
